@@ -226,6 +226,7 @@ def _shard(args):
         from hypothesis import HealthCheck, Phase, given, settings
 
         shrink_seconds = 25 if tier == "quick" else 150
+        failing: set[str] = set()
 
         @hypothesis.seed(derive_seed(seed, prop_id, tier, shard_idx))
         @settings(
@@ -241,8 +242,9 @@ def _shard(args):
         def body(case):
             now = time.time()
             msg = None
-            if stats["failure"] is not None and case == stats["failure"][0]:
-                msg = "replay"  # final replay of the minimal failing case
+            ckey = jdump(case)
+            if ckey in failing:
+                msg = "replay"  # a case already seen failing (e.g. the final replay of the minimal one): stay consistent
             elif stats["failure"] is None and now - t0 > seconds:
                 stats["budget_exhausted"] = True
             elif stats["failure"] is not None and now - stats["t_fail"] > shrink_seconds:
@@ -253,7 +255,8 @@ def _shard(args):
                 if not out.ok and not out.excluded:
                     stats["failure"] = (case, out.detail)
                     stats.setdefault("t_fail", now)
-                    msg = jdump(out.detail)[:500]
+                    failing.add(ckey)
+                    msg = "violation"
             if msg is not None:
                 raise Violation(msg)
 
